@@ -29,6 +29,7 @@ def main():
     seed = a.seed if a.seed is not None else int(os.environ.get("VERIF_SEED", "20260929") or 0)
     mod = importlib.import_module("props." + pid.lower())
     ctx = C.Ctx(pid, tier, seed, level=getattr(mod, "LEVEL", "proof"))
+    ctx.is_replay = bool(a.replay)      # a replay does not rewrite evidence/<id>.json (that file describes a check run)
     for t in C.base_trusted():
         ctx.add_trusted(t)
     rc = 0
